@@ -1766,4 +1766,84 @@ example :
     (∀ k ∈ p.U.map (·.1) ++ c.U.map (·.1), lookup p.U k = lookup c.U k) ∧
     lookup p.U (21, 1) = some ⟨"m3", 1, 0⟩ ∧ curVer p "k" = some (22, 0) := by decide
 
+-- ================================================================== admission on top of the pool
+
+/-- no row and no key version of the base state carries transaction id `i` (checkable form: over the rows) -/
+def IdFresh (g : St) (i : Nat) : Prop :=
+  (∀ p ∈ g.U, p.1.1 ≠ i) ∧ (∀ p ∈ g.ZU, p.2.1 ≠ i) ∧ (∀ p ∈ g.ZD, p.2.1 ≠ i)
+
+instance (g : St) (i : Nat) : Decidable (IdFresh g i) := by unfold IdFresh; exact inferInstance
+
+private theorem applyPool_as_prun (e : Env) (l : List Nat) (C : St) : applyPool e l C = prun e (l.map POp.app) C :=
+  (prun_apps e l C).symm
+
+/-- **one admission (`doTx`) on top of the pool keeps "the state refines `C` + pool" and the side conditions of the pool.**
+`C` any state (in the closing induction: the canonical state of the tip) with `FrozenInv`; the state refines "`C`, then the
+pool"; `PoolValid`, no repetition. If the transaction is accepted it must be well-formed, cite the declared frozen
+heights and have no row in `C` (it is not confirmed on the chain of `C`) — nothing is asked of a refused transaction:
+`doTx` then leaves the state as it is (C05). -/
+theorem doTx_refines (e : Env) (s : St) (lh : Int) (i : Nat) (C : St)
+    (hs : TRefines s (applyPool e s.pool C)) (hpool : PoolValid e s.pool C) (hnd : s.pool.Nodup)
+    (hfz : FrozenInv e C)
+    (hacc : (doTx e s lh i).2 = .ok → TxWF e i ∧ StaticFrozen e i ∧ ∀ o, lookup C.U (i, o) = none) :
+    TRefines (doTx e s lh i).1 (applyPool e (doTx e s lh i).1.pool C) ∧
+    PoolValid e (doTx e s lh i).1.pool C ∧ (doTx e s lh i).1.pool.Nodup ∧
+    (doTx e s lh i).1.pointer = s.pointer ∧
+    ((doTx e s lh i).1.pool = s.pool ∨ (doTx e s lh i).1.pool = s.pool ++ [i]) := by
+  by_cases hok : (doTx e s lh i).2 = .ok
+  · obtain ⟨hnp, hadm, hs'⟩ := XV.C03.doTx_ok e s lh i hok
+    obtain ⟨hwf, hsf, hfresh⟩ := hacc hok
+    have hP := (poolValid_iff e _ _).mp hpool
+    have hpl : (doTx e s lh i).1.pool = s.pool ++ [i] := by rw [hs']
+    have hid : ∀ op ∈ s.pool.map POp.app, (e.tx (opId op)).id = opId op := by
+      intro op hop
+      obtain ⟨j, hj, rfl⟩ := List.mem_map.mp hop
+      exact (hP.wf j hj).id
+    have hfr : ∀ o, lookup (applyPool e s.pool C).U (i, o) = none := by
+      intro o
+      rw [applyPool_as_prun]
+      apply prun_row_absent e _ C i o hid _ (hfresh o)
+      intro op hop h
+      obtain ⟨j, hj, rfl⟩ := List.mem_map.mp hop
+      simp only [opId] at h
+      exact hnp (h ▸ hj)
+    have hfzP : FrozenInv e (applyPool e s.pool C) := by
+      rw [applyPool_as_prun]
+      apply prun_FrozenInv e _ C _ hfz
+      intro op hop
+      obtain ⟨j, hj, rfl⟩ := List.mem_map.mp hop
+      exact hP.wf j hj
+    refine ⟨doTx_keeps_pool_form e C s lh i hs, ?_, ?_, doTx_pointer e s lh i, Or.inr hpl⟩
+    · rw [hpl]
+      apply poolValid_snoc e s.pool i C hpool ⟨lh, ?_⟩ hwf hfr
+      · exact citesFrozen_of_inv e _ i hfzP hsf
+      · rw [← admission_congrT s _ lh (e.tx i) hs.obs]; exact hadm
+    · rw [hpl]
+      apply List.nodup_append.mpr
+      refine ⟨hnd, by simp, ?_⟩
+      intro a ha b hb
+      simp only [List.mem_cons, List.not_mem_nil, or_false] at hb
+      rw [hb]; exact fun h => hnp (h ▸ ha)
+  · rw [XV.C05.doTx_fail_noop e s lh i hok]
+    exact ⟨hs, hpool, hnd, rfl, Or.inl rfl⟩
+
+-- non-vacuity: the node of the `play_refines` example admits a sixth transaction (27 spends the output of 23)
+private def dtEnv : Env := { prEnv with
+  txs := prEnv.txs ++ [(27, ⟨27, false, [⟨23, 0, "u3", 4, 0, false⟩], [⟨"u7", 3, 0⟩, ⟨"$", 1, 0⟩], [⟨"k", some (22, 0)⟩], []⟩)] }
+private def dtS : St := { applyPool dtEnv prPool (canon dtEnv prG 1) with pool := prPool }
+
+example : (doTx dtEnv dtS 0 27).2 = .ok ∧ (doTx dtEnv dtS 0 27).1.pool = prPool ++ [27] ∧ dtS.pool.Nodup ∧
+    StaticFrozen dtEnv 27 ∧ (doTx dtEnv dtS 0 21).2 = .inpool := by decide
+example : TxWF dtEnv 27 := ⟨by decide, by decide, by decide⟩
+example : ∀ o, lookup (canon dtEnv prG 1).U (27, o) = none := absent_of_rows _ _ (by decide)
+example : FrozenInv dtEnv (canon dtEnv prG 1) := frozenInv_of_rows _ _ (by decide)
+example : TRefines dtS (applyPool dtEnv dtS.pool (canon dtEnv prG 1)) :=
+  (TRefines.refl _).of_tables ⟨rfl, rfl, rfl, rfl⟩ ⟨rfl, rfl, rfl, rfl⟩
+example : PoolValid dtEnv dtS.pool (canon dtEnv prG 1) :=
+  ⟨⟨0, by decide⟩, ⟨by decide, by decide, by decide⟩, absent_of_rows _ _ (by decide), by decide,
+   ⟨0, by decide⟩, ⟨by decide, by decide, by decide⟩, absent_of_rows _ _ (by decide), by decide,
+   ⟨0, by decide⟩, ⟨by decide, by decide, by decide⟩, absent_of_rows _ _ (by decide), by decide,
+   ⟨0, by decide⟩, ⟨by decide, by decide, by decide⟩, absent_of_rows _ _ (by decide), by decide,
+   ⟨0, by decide⟩, ⟨by decide, by decide, by decide⟩, absent_of_rows _ _ (by decide), by decide, trivial⟩
+
 end XV.C01
